@@ -43,17 +43,24 @@ def spec_s(v):
     return float(v) / GRID[1]
 
 
-def make_factory(stop, base_constants=False, two=False, grid=(1.0, 1.0)):
+def make_factory(stop, base_constants=False, two=False, grid=(1.0, 1.0), shared=False):
+    """shared: the Model object is built once (as a model.py with a module-level model does) and every bptk() the factory
+    constructs registers that one object - legal, because a scenario manager works on its own copy of what it is given"""
     BPTK_Py = use_repo()
     from BPTK_Py import Model
 
-    def factory():
+    def build():
         model = Model(starttime=grid[0], stoptime=grid[0] + (float(stop) - 1.0) * grid[1], dt=grid[1], name="ref")
         k = model.constant("k"); f = model.flow("f"); s = model.stock("s")
         s.initial_value = 0.0
         s.equation = f
         f.equation = k
         k.equation = 1.0
+        return model
+    once = build() if shared else None
+
+    def factory():
+        model = once if shared else build()
         b = BPTK_Py.bptk()
         b.register_scenario_manager({"sm": {"model": model}})
         b.register_scenarios(scenario_manager="sm", scenarios={nm("base"): ({"constants": {"k": 1.0}} if base_constants else {}),
@@ -90,7 +97,7 @@ def make_file_factory(stop, base_constants, workdir):
 
 class Srv:
     def __init__(self, stop=4, adapter=False, compress=False, token=None, unit="seconds", state_dir=None, base_constants=False, two=False, grid=(1.0, 1.0),
-                 files=False, names=None):
+                 files=False, names=None, shared=False):
         GRID[0], GRID[1] = float(grid[0]), float(grid[1])
         NAMES.update(names or {"base": "base", "high": "high"})
         self._filedir = None
@@ -108,7 +115,7 @@ class Srv:
         self.esamod.datetime = self.clock
         self.stop, self.unit, self.token, self.compress = stop, unit, token, compress
         self.two = two
-        self.factory = make_factory(stop, base_constants, two, grid) if not files else make_file_factory(stop, base_constants, self._filedir)
+        self.factory = make_factory(stop, base_constants, two, grid, shared) if not files else make_file_factory(stop, base_constants, self._filedir)
         self._created = []
         inner = self.factory
         def tracking_factory():
